@@ -33,6 +33,7 @@ def all_cases(ctx):
     # an input with many loads
     cs.append((("star", "input", 7), mkspec("star_input", [("a", "input", [])] + [(f"l{i}", "not" if i % 2 else "buf", ["a"], True) for i in range(7)])))
     cs += F.renamed([c for c in F.f_unit(5, pairs=False) if c[0][2] >= 3], "limit")
+    cs += F.renamed([c for c in F.f_unit(3) if c[0][0] == "pair"][:10], "regs")
     cs += F.f_rand(ctx.seed, 30 if ctx.quick else 300)
     if not ctx.quick:
         import random
